@@ -27,7 +27,7 @@ Range(sq) == {sq[i] : i \in DOMAIN sq}
 ArtsOf(t, p) == IF p \in DOMAIN t THEN t[p].arts ELSE <<>>
 ZeroDate == <<0, 0, 0, 0, 0, 0, 0, 0>>
 
-ViolTags == {"ids", "content", "links", "list", "children", "reload"}
+ViolTags == {"ids", "content", "links", "list", "children", "reload", "lost"}
 
 (* ---- comparing one observed article with the model's ---------------------------------------------------------- *)
 ArtFails(x, a) ==
@@ -211,7 +211,8 @@ ReloadAdopt(e) == /\ nodes' = TreeOfDisk(e.disk)
 
 (* A step the server did not answer (`noreply`), answered by closing the connection (`panicked`: the handler's panic is
    recovered by dropping the connection) or after which it could not be observed any more (`ended`).  The statement
-   does not say what such a request does, so the step is always reported as DRIFT; the model then takes whichever of
+   does not say how such a request is answered, so a step that took effect, or that the model excludes anyway, is
+   reported as DRIFT - but a valid request whose effect is missing afterwards is a violation ("lost"); the model then takes whichever of
    "took effect" / "did not take effect" agrees with what the server shows on a fresh connection, and the run goes on
    being judged (an article that was acknowledged earlier and is missing now is still a violation).  If neither
    agrees, the rest of the run is not judged. *)
@@ -225,12 +226,20 @@ UnansweredEv(e, s) ==
       okA == ~e.ended /\ can /\ TreeClean(e, ta)
       okU == ~e.ended /\ TreeClean(e, nodes)
       t == IF okA THEN ta ELSE nodes
+      (* a request that is valid in the model (existing item, existing or zero parent) and must change the tree, but
+         the tree the server shows afterwards does not have the change: the post / the new item / the deletion is
+         lost - the statement applies whatever the server did instead of answering *)
+      lost == ~e.ended /\ can /\ ta # nodes /\ ~okA
       why == IF e.ended THEN "server not observable any more: run ended"
              ELSE IF e.panicked THEN "connection closed instead of a reply (handler panicked)"
              ELSE "no reply within the bound"
-  IN /\ (~Drifted(e) /\ <<e.run, why>> \notin seen =>
-            Report("DRIFT", e, [fails |-> {why}, tookEffect |-> okA, noEffect |-> okU, anom |-> e.anom]))
-     /\ seen' = seen \cup {<<e.run, why>>} \cup (IF okA \/ okU THEN {} ELSE {<<e.run, "drift">>})
+  IN /\ IF lost
+          THEN (~Drifted(e) /\ <<e.run, "lost">> \notin seen =>
+                  Report("VIOL", e, [fails |-> {"lost"}, how |-> why, noEffect |-> okU, anom |-> e.anom]))
+          ELSE (~Drifted(e) /\ <<e.run, why>> \notin seen =>
+                  Report("DRIFT", e, [fails |-> {why}, tookEffect |-> okA, noEffect |-> okU, anom |-> e.anom]))
+     /\ seen' = seen \cup {IF lost THEN <<e.run, "lost">> ELSE <<e.run, why>>}
+                     \cup (IF okA \/ okU THEN {} ELSE {<<e.run, "drift">>})
      /\ nodes' = t /\ disk' = t
      /\ uname' = IF e.op = "setname" THEN e.name ELSE uname
      /\ out' = [op |-> e.op, unanswered |-> TRUE]
